@@ -61,6 +61,10 @@ def gen_stats_case(rng, M, P, N, scalar="f64", weights=None, noise=0.05, quant=N
     synth_observations(rng, c, truth, noise=noise, qbits=qbits)
     if weights and weights != "none":
         w = [1.0] * N if weights == "unit" else [rng.choice([0.5, 3.0, 0.25, 2.5])] * N if weights == "const" else [dyadic(rng, 0.5, 3, 2) for _ in range(N)]
+        if weights in ("tiny", "huge"):
+            # a common factor of 2^-15 / 2^12: H^T H scales by its square, the covariance not at all
+            f = 2.0 ** -15 if weights == "tiny" else 2.0 ** 12
+            w = [v * f for v in w]
         if weights == "neg":
             # the sign of a weight is immaterial for the fit (only w^2 enters); it must be for the statistics too
             for i in rng.sample(range(N), max(1, N // 3)):
